@@ -769,7 +769,7 @@ def run_cy(ctx, cases):
                 one = dump([c])
                 try:
                     single = [None]
-                    st2, _ = cy_session(ctx, one, 0, 1, single, CONFIRM_LIMIT)
+                    st2, _ = cy_session(ctx, one, 0, 1, single, 20.0)
                 finally:
                     os.unlink(one)
                 if st2 is not None:
